@@ -12,7 +12,7 @@ ASSUMPTIONS = ["ref.bump / ref.pattern transcribe the README rules; classes the 
                "(unspecified_*)", "pattern grammar and value spaces are sampled, not enumerated"]
 COMPONENTS = {"bumpver cli test + v2version/v2patterns": "real", "clock": "simulated (version.TODAY and --date)",
               "reference bump model / recogniser / PEP 440 order": "independent re-implementation (ref/)"}
-CAMPAIGNS = [TestCmd("C05", quick=24000, thorough=900000, all_flag_subsets=True, sv_rate=0.05)]
+CAMPAIGNS = [TestCmd("C05", quick=40000, thorough=900000, all_flag_subsets=True, sv_rate=0.05)]
 
 
 def sanity_gate(tier, total):
